@@ -184,10 +184,14 @@ CHECKS.update(
         "set_cell_ratio / get_cell_ratio and the memoized terminal-identity getters (incl. TextImage._is_on_kitty) run on a symbolic terminal "
         "whose size in cells and pixels are z3 integers (fresh ones at every resize). Histories of k operations chosen by solver-forked "
         "selectors; after every getter the value must equal a fresh computation for the current size and settings, memoized bodies run at "
-        "most once until invalidated, results from a period with queries disabled are discarded on re-enabling.",
+        "most once until invalidated, results from a period with queries disabled are discarded on re-enabling. Concurrent first calls: "
+        "the wrapper of utils.cached is translated from the current source into a micro-op program and every interleaving of 2-3 (4) "
+        "caller threads with solver-chosen argument tuples and an optional invalidating thread is decided by a z3 finite-domain BMC query "
+        "(body never runs twice for one tuple); schedules found are replayed on the real decorator with real threads.",
         note="Trusted: z3, engine, environment stubs (terminal size, TIOCGWINSZ, query_terminal). Integer quotients are uninterpreted "
         "(the property is about staleness, not arithmetic). Pixel size may change only together with the size in cells relative to the "
-        "library's last evaluation (documented caching per terminal size). Thread interleavings of first calls: see C14.",
+        "library's last evaluation (documented caching per terminal size). Interleaving part: re-entrant mutex model of threading.RLock, "
+        "granularity = lock operations / cache accesses / body entry and exit; terminal_size_cached's wrapper is not in the interleaving model.",
         design="3 C15",
         technique=TECH_M,
     ),
